@@ -46,6 +46,8 @@ package gabikeys
 //@   safety
 //@   ensures refused: err != nil ==> result0 == nil
 //@   ensures complete: err == nil ==> result0 != nil && result0.P != nil && result0.Q != nil && result0.PPrime != nil && result0.QPrime != nil && result0.N != nil && result0.Order != nil
+//@   ensures[C18] length: err == nil && !demo ==> in(DefaultSystemParameters, bitlen(val(result0.N))) && val(result0.N) == prod(val(result0.P), val(result0.Q))
+//@   ensures[C18] safe: err == nil && !demo ==> val(result0.P) > 2 && isprime(val(result0.P)) && isprime(val(result0.P) / 2) && val(result0.Q) > 2 && isprime(val(result0.Q)) && isprime(val(result0.Q) / 2) && val(result0.PPrime) == (val(result0.P) - 1) / 2 && val(result0.QPrime) == (val(result0.Q) - 1) / 2
 //@   mustfail canary: err != nil
 
 //@ func (*PrivateKey).parseRevocationKey
